@@ -127,6 +127,9 @@ class ConnModel(Model):
         f.done = d
         if not d:
             it.throw("InvalidStateError", "Result is not set.")
+        if name == "data_connection":
+            self.session.last_loaded_data = f.value
+            self.session.loaded_epoch = self.session.epoch
         return f.value
 
     def setattr(self, it, name, value):
@@ -205,10 +208,21 @@ class Writer(Model):
                 i.ctx.event("write", self.tag, a[0])
 
             return Builtin("writer.write", write)
+        if name == "wait_closed":
+
+            def wait_closed(i, a, k):
+                def run():
+                    net_wait(i, "writer.wait_closed")
+                    i.suspend("wait_closed")
+
+                return Coro(run, "wait_closed")
+
+            return Builtin("writer.wait_closed", wait_closed)
         if name == "drain":
 
             def drain(i, a, k):
                 def run():
+                    net_wait(i, "writer.drain")
                     i.suspend("drain")
                     if i.ctx.choose(2, "drain-outcome") == 1:
                         i.throw("ConnectionResetError")
@@ -242,6 +256,7 @@ class Reader(Model):
                 n = a[0] if a else -1
 
                 def run():
+                    net_wait(i, "reader.read")
                     i.suspend("reader.read")
                     c = i.ctx.choose(2, "read-outcome")
                     if c == 1:
@@ -267,6 +282,7 @@ class Reader(Model):
 
             def readline(i, a, k):
                 def run():
+                    net_wait(i, "reader.readline")
                     i.suspend("reader.readline")
                     c = i.ctx.choose(3, "readline-outcome")
                     if c == 1:
@@ -293,6 +309,14 @@ class Reader(Model):
 
             return Builtin("reader.readline", readline)
         raise Unsupported("StreamReader." + name)
+
+
+def net_wait(it, what):
+    """a wait on the peer.  Once cancellation has been delivered to the running task (ABOR, disconnect, shutdown) the
+    task must unwind without waiting for the peer again (C12 'without waiting for further input', C14 'is answered')."""
+    if getattr(it, "cancel_delivered", None):
+        fn = it.call_stack[-1].qualname if it.call_stack else "<unit>"
+        it.ctx.check(f"{fn}/no-wait-on-the-peer-after-cancellation:{what}", z3.BoolVal(False), info={"props": ["C12", "C14"]})
 
 
 GUARDS = {}
